@@ -51,9 +51,45 @@ def params(rng, lif):
     return lif.LIFParams(tau=tau, r=r, v_leak=v_leak, v_threshold=thr)
 
 
+def fhex(x):
+    import struct
+    return struct.pack("<d", float(x)).hex()
+
+
 def run(ctx):
     rng = ctx.rng
     lif = load_lif()
+    # ---- translator validation: the generated Float twins, executed by the driver, against the Python ----
+    cases, obs, reqs = [], [], []
+    for _ in range(ctx.n(300)):
+        p = params(rng, lif)
+        i_in = rng.uniform(-3, 3); v0 = p.v_threshold - rng.uniform(1e-3, 3.0); dt = rng.uniform(0, 5) * p.tau
+        n = lif.ExactLIFNeuron(p); n.state.v = v0
+        n.advance_by_delta_t(i_in, dt); adv = n.state.v
+        n.state.v = v0
+        nxt = n.calc_next_spike_time(i_in)
+        n.apply_reset(); rst = n.state.v
+        c = {"op": "lif_kernel", "args": [fhex(x) for x in (p.tau, p.r, p.v_leak, p.v_threshold, v0, i_in, dt)]}
+        cases.append(c); reqs.append(c)
+        obs.append({"advance": fhex(adv), "next": None if math.isinf(nxt) else fhex(nxt), "reset": fhex(rst)})
+        ctx.count("translator_validation_lif")
+    import nir
+    cuba = load_cuba()
+    for _ in range(ctx.n(300)):
+        g = np.random.default_rng(rng.randrange(2 ** 32))
+        vals = [10 ** rng.uniform(-4, -2), g.uniform(1e-3, 0.1), g.uniform(1e-3, 0.1), g.uniform(-2, 2), g.uniform(-1, 1),
+                g.uniform(0.2, 2), g.uniform(-2, 2), g.uniform(-1, 1), g.uniform(-1, 2.5), float(rng.randrange(0, 3))]
+        dt, ts, tm, r, vl, vt, w, I, v, x = [float(t) for t in vals]
+        node = nir.CubaLIF(tau_syn=np.array([ts]), tau_mem=np.array([tm]), r=np.array([r]), v_leak=np.array([vl]),
+                           v_threshold=np.array([vt]), w_in=np.array([w]))
+        m = cuba.CubaLIFImplementation(dt, node)
+        m.I = np.array([I]); m.v = np.array([v])
+        z, vo, Io = m.forward(np.array([x]))
+        c = {"op": "cuba_kernel", "args": [fhex(t) for t in (dt, ts, tm, r, vl, vt, w, I, v, x)]}
+        cases.append(c); reqs.append(c)
+        obs.append({"z": fhex(float(z[0])), "v": fhex(vo[0]), "I": fhex(Io[0])})
+        ctx.count("translator_validation_cuba")
+    ctx.compare("kernels", cases, obs, reqs)
     # ---- closed-form kernels ---------------------------------------------------------------
     for _ in range(ctx.n(400)):
         p = params(rng, lif)
